@@ -9,6 +9,12 @@
 // (independent h1 parse, unique ids), Done() closed once shutdown began, idle
 // keep-alive connections closed by the server. Bounded liveness: Shutdown
 // returns soon after the harness released the last gate.
+//
+// Two scenario classes get dedicated histories: (a) a connection that the
+// listener's Accept has already obtained but not yet handed to Serve when
+// Shutdown runs (the listener wrapper sleeps inside Accept and Shutdown is
+// called inside that delay), and (b) two or three Serve/Shutdown cycles on the
+// same Server value, every cycle judged by all monitors.
 package c15
 
 import (
@@ -60,6 +66,8 @@ type reqRec struct {
 	doneSeen  atomic.Bool // handler saw Done() closed
 	doneMiss  atomic.Bool // handler released after shutdown began, Done() still open
 	viaFB     atomic.Bool
+	cyc       *cycle
+	afterShut atomic.Bool // handler started although this cycle's Shutdown had already returned nil
 }
 
 func (q *reqRec) wire() string {
@@ -69,7 +77,7 @@ func (q *reqRec) wire() string {
 func (q *reqRec) wantBody() string { return q.ID + ":" + strings.Repeat("x", q.BodyLen) }
 
 type client struct {
-	k           *kase
+	cyc         *cycle
 	Idx         int
 	Sit         string // idle, slow, pipe, done, silent, lateidle
 	Ln          int
@@ -91,61 +99,115 @@ type client struct {
 	setupMsg string
 }
 
+// kase is one Server value going through 1-3 Serve/Shutdown cycles.
 type kase struct {
 	r   *mon.Run
 	idx int
 	cfg caseCfg
 	s   *fasthttp.Server
-	lns []*fasthttputil.InmemoryListener
 
-	reqs     map[string]*reqRec
+	reqs     map[string]*reqRec // all cycles, filled before the server starts
 	inflight atomic.Int32
+	cur      atomic.Pointer[cycle]
+}
+
+// cycle is one Serve ... Shutdown round on the case's Server.
+type cycle struct {
+	k       *kase
+	n       int
+	cfg     cycleCfg
+	lns     []*slowListener
+	clients []*client
+
 	counts   map[string]*atomic.Int32
 	trigCh   chan struct{}
 	trigOnce sync.Once
 
 	doneMu sync.Mutex
 	doneCh <-chan struct{}
+
+	pending      atomic.Int32 // connections obtained by the listener's Accept, not yet returned to Serve
+	shutReturned atomic.Bool  // this cycle's Shutdown returned nil
 }
 
 type caseCfg struct {
-	Listeners       int      `json:"listeners"`
-	RMU             bool     `json:"reduce_memory_usage"`
-	CloseOnShutdown bool     `json:"close_on_shutdown"`
-	IdleTimeout     bool     `json:"idle_timeout_set"`
-	WithContext     bool     `json:"shutdown_with_context"`
-	Trigger         string   `json:"trigger"`
-	TriggerK        int      `json:"trigger_k"`
-	WaitDone        bool     `json:"release_after_done_closed"`
-	Sits            []string `json:"situations"`
+	RMU             bool       `json:"reduce_memory_usage"`
+	CloseOnShutdown bool       `json:"close_on_shutdown"`
+	IdleTimeout     bool       `json:"idle_timeout_set"`
+	Cycles          []cycleCfg `json:"cycles"`
 }
 
-func (k *kase) fire() { k.trigOnce.Do(func() { close(k.trigCh) }) }
+type cycleCfg struct {
+	Listeners     int      `json:"listeners"`
+	WithContext   bool     `json:"shutdown_with_context"`
+	Trigger       string   `json:"trigger"`
+	TriggerK      int      `json:"trigger_k"`
+	WaitDone      bool     `json:"release_after_done_closed"`
+	SlowAccept    bool     `json:"slow_accept"`
+	AcceptDelayMs int      `json:"accept_delay_ms"`
+	Sits          []string `json:"situations"`
+}
+
+// slowListener wraps the in-memory listener: when armed, the next Accept obtains the connection
+// from the inner listener (so the client's Dial returns and the client sends its request), makes
+// Shutdown be called, and only then - after a PRNG delay - hands the connection to Serve.
+type slowListener struct {
+	*fasthttputil.InmemoryListener
+	cyc   *cycle
+	armed atomic.Int64 // delay in ns, 0 = not armed
+}
+
+func (l *slowListener) Accept() (net.Conn, error) {
+	c, err := l.InmemoryListener.Accept()
+	if err != nil {
+		return c, err
+	}
+	if d := l.armed.Swap(0); d > 0 {
+		l.cyc.pending.Add(1)
+		l.cyc.fire()
+		time.Sleep(time.Duration(d))
+		l.cyc.pending.Add(-1)
+	}
+	return c, nil
+}
+
+func (cy *cycle) fire() { cy.trigOnce.Do(func() { close(cy.trigCh) }) }
+
+func (cy *cycle) bump(kind string) {
+	if c := cy.counts[kind]; c != nil {
+		if int(c.Add(1)) == cy.cfg.TriggerK && cy.cfg.Trigger == kind {
+			cy.fire()
+		}
+	}
+}
 
 func (k *kase) bump(kind string) {
-	if c := k.counts[kind]; c != nil {
-		if int(c.Add(1)) == k.cfg.TriggerK && k.cfg.Trigger == kind {
-			k.fire()
-		}
+	if cy := k.cur.Load(); cy != nil {
+		cy.bump(kind)
 	}
 }
 
 func (k *kase) handler(ctx *fasthttp.RequestCtx) {
 	id := string(ctx.Path())[1:]
 	q := k.reqs[id]
-	if q == nil { // warm-up request: remember the server's Done channel
-		k.doneMu.Lock()
-		if k.doneCh == nil {
-			k.doneCh = ctx.Done()
+	if q == nil { // warm-up request: remember the Done channel of the current Serve/Shutdown cycle
+		if cy := k.cur.Load(); cy != nil {
+			cy.doneMu.Lock()
+			if cy.doneCh == nil {
+				cy.doneCh = ctx.Done()
+			}
+			cy.doneMu.Unlock()
 		}
-		k.doneMu.Unlock()
 		ctx.WriteString("warm")
 		return
 	}
 	k.inflight.Add(1)
+	if q.cyc.shutReturned.Load() {
+		q.afterShut.Store(true)
+	}
 	q.started.Store(true)
 	close(q.startedCh)
-	k.bump("hstart")
+	q.cyc.bump("hstart")
 	switch q.Kind {
 	case "gated":
 		if afterDone := <-q.gate; afterDone {
@@ -176,7 +238,7 @@ func (k *kase) handler(ctx *fasthttp.RequestCtx) {
 	} else {
 		ctx.SetBodyString(body)
 	}
-	k.bump("hend")
+	q.cyc.bump("hend")
 	q.ended.Store(true)
 	k.inflight.Add(-1)
 }
@@ -267,7 +329,7 @@ func (c *client) run() {
 	defer close(c.released)
 	signalReady := sync.OnceFunc(func() { close(c.ready) })
 	defer signalReady()
-	conn, err := c.k.lns[c.Ln].Dial()
+	conn, err := c.cyc.lns[c.Ln].Dial()
 	if err != nil {
 		c.dialErr = err
 		close(c.eofCh)
@@ -283,6 +345,15 @@ func (c *client) run() {
 	case "slow", "done":
 		if _, err := conn.Write([]byte(c.reqs[0].wire())); err == nil {
 			c.setupMsg = c.waitStarted(c.reqs[0])
+		}
+	case "accdelay":
+		// connects and sends right away; the listener wrapper is still sitting on the connection
+		if _, err := conn.Write([]byte(c.reqs[0].wire())); err == nil {
+			if c.reqs[0].Kind == "fast" {
+				c.setupMsg = c.waitResponse(c.reqs[0].ID)
+			} else {
+				c.setupMsg = c.waitStarted(c.reqs[0])
+			}
 		}
 	case "pipe":
 		if _, err := conn.Write([]byte(c.reqs[0].wire() + c.reqs[1].wire())); err == nil {
@@ -360,52 +431,92 @@ func waitCh(ch <-chan struct{}, d time.Duration) bool {
 	}
 }
 
+var laterSituations = []string{"idle", "slow", "done", "done", "pipe", "lateidle", "silent"}
+var slowAcceptSituations = []string{"idle", "idle", "idle", "lateidle", "slow", "silent"}
+
 func runCase(r *mon.Run, i int) {
 	rnd := r.Rand("case", i)
-	k := &kase{r: r, idx: i, reqs: map[string]*reqRec{}, trigCh: make(chan struct{}),
-		counts: map[string]*atomic.Int32{"new": {}, "active": {}, "idle": {}, "hstart": {}, "hend": {}}}
-	nconn := 1 + rnd.Intn(16)
+	k := &kase{r: r, idx: i, reqs: map[string]*reqRec{}}
+	cfg := caseCfg{RMU: rnd.Intn(2) == 0, CloseOnShutdown: rnd.Intn(3) == 0, IdleTimeout: rnd.Intn(3) == 0}
+	ncycles := 1
 	if rnd.Intn(3) == 0 {
-		nconn = 1 + rnd.Intn(3)
+		ncycles = 2 + rnd.Intn(2)
 	}
-	cfg := caseCfg{Listeners: 1 + rnd.Intn(2), RMU: rnd.Intn(2) == 0, CloseOnShutdown: rnd.Intn(3) == 0, IdleTimeout: rnd.Intn(3) == 0,
-		WithContext: rnd.Intn(4) == 0, Trigger: triggers[rnd.Intn(len(triggers))], WaitDone: rnd.Intn(3) != 0}
-	cfg.TriggerK = 1 + rnd.Intn(2*nconn)
-	var clients []*client
-	newReq := func(ci, n int, role, kind string) *reqRec {
-		q := &reqRec{ID: fmt.Sprintf("c%d-k%d-r%d", i, ci, n), Role: role, Kind: kind, BodyLen: bodyLen(rnd), Chunked: rnd.Intn(6) == 0,
-			gate: make(chan bool, 1), fallback: make(chan struct{}), startedCh: make(chan struct{})}
-		k.reqs[q.ID] = q
-		return q
-	}
-	for ci := 0; ci < nconn; ci++ {
-		c := &client{k: k, Idx: ci, Sit: situations[rnd.Intn(len(situations))], Ln: rnd.Intn(cfg.Listeners),
-			notify: make(chan struct{}, 1), eofCh: make(chan struct{}), ready: make(chan struct{}), release: make(chan struct{}), released: make(chan struct{})}
-		switch c.Sit {
-		case "idle":
-			c.reqs = []*reqRec{newReq(ci, 0, "idle", "fast")}
-		case "lateidle":
-			c.reqs = []*reqRec{newReq(ci, 0, "idle", "fast")}
-			c.late = newReq(ci, 1, "late-idle", "fast")
-		case "slow":
-			c.reqs = []*reqRec{newReq(ci, 0, "slow", "gated")}
-		case "done":
-			c.reqs = []*reqRec{newReq(ci, 0, "done", "donewait")}
-		case "pipe":
-			k2 := "fast"
-			if rnd.Intn(2) == 0 {
-				k2 = "gated"
-			}
-			c.reqs = []*reqRec{newReq(ci, 0, "pipe1", "gated"), newReq(ci, 1, "pipe2", k2)}
-		case "silent":
-			if rnd.Intn(2) == 0 {
-				c.SilentClose = true
-			} else {
-				c.late = newReq(ci, 0, "late-silent", "fast")
-			}
+	var cycles []*cycle
+	for cn := 0; cn < ncycles; cn++ {
+		cy := &cycle{k: k, n: cn, trigCh: make(chan struct{}),
+			counts: map[string]*atomic.Int32{"new": {}, "active": {}, "idle": {}, "hstart": {}, "hend": {}}}
+		cc := cycleCfg{Listeners: 1 + rnd.Intn(2), WithContext: rnd.Intn(4) == 0, Trigger: triggers[rnd.Intn(len(triggers))], WaitDone: rnd.Intn(3) != 0}
+		cc.SlowAccept = rnd.Intn(4) == 0
+		nconn := 1 + rnd.Intn(16)
+		if rnd.Intn(3) == 0 {
+			nconn = 1 + rnd.Intn(3)
 		}
-		cfg.Sits = append(cfg.Sits, c.Sit)
-		clients = append(clients, c)
+		pool := situations
+		if cn > 0 {
+			nconn = 1 + rnd.Intn(5)
+			pool = laterSituations
+		}
+		if cc.SlowAccept {
+			// the other connections must not hold Shutdown beyond the accept delay too often
+			nconn = rnd.Intn(4)
+			pool = slowAcceptSituations
+			cc.Trigger = "slowaccept"
+			cc.AcceptDelayMs = 60 + rnd.Intn(500)
+		}
+		cc.TriggerK = 1 + rnd.Intn(2*nconn+1)
+		newReq := func(ci, n int, role, kind string) *reqRec {
+			q := &reqRec{ID: fmt.Sprintf("c%d-y%d-k%d-r%d", i, cn, ci, n), Role: role, Kind: kind, BodyLen: bodyLen(rnd), Chunked: rnd.Intn(6) == 0,
+				gate: make(chan bool, 1), fallback: make(chan struct{}), startedCh: make(chan struct{}), cyc: cy}
+			k.reqs[q.ID] = q
+			return q
+		}
+		newClient := func(ci int, sit string) *client {
+			return &client{cyc: cy, Idx: ci, Sit: sit, Ln: rnd.Intn(cc.Listeners),
+				notify: make(chan struct{}, 1), eofCh: make(chan struct{}), ready: make(chan struct{}), release: make(chan struct{}), released: make(chan struct{})}
+		}
+		for ci := 0; ci < nconn; ci++ {
+			sit := pool[rnd.Intn(len(pool))]
+			if cn > 0 && ci == 0 {
+				sit = "done" // every later cycle has a handler blocked on ctx.Done() when Shutdown is called
+			}
+			c := newClient(ci, sit)
+			switch c.Sit {
+			case "idle":
+				c.reqs = []*reqRec{newReq(ci, 0, "idle", "fast")}
+			case "lateidle":
+				c.reqs = []*reqRec{newReq(ci, 0, "idle", "fast")}
+				c.late = newReq(ci, 1, "late-idle", "fast")
+			case "slow":
+				c.reqs = []*reqRec{newReq(ci, 0, "slow", "gated")}
+			case "done":
+				c.reqs = []*reqRec{newReq(ci, 0, "done", "donewait")}
+			case "pipe":
+				k2 := "fast"
+				if rnd.Intn(2) == 0 {
+					k2 = "gated"
+				}
+				c.reqs = []*reqRec{newReq(ci, 0, "pipe1", "gated"), newReq(ci, 1, "pipe2", k2)}
+			case "silent":
+				if rnd.Intn(2) == 0 {
+					c.SilentClose = true
+				} else {
+					c.late = newReq(ci, 0, "late-silent", "fast")
+				}
+			}
+			cc.Sits = append(cc.Sits, c.Sit)
+			cy.clients = append(cy.clients, c)
+		}
+		if cc.SlowAccept {
+			c := newClient(nconn, "accdelay")
+			kind := []string{"fast", "fast", "gated", "donewait"}[rnd.Intn(4)]
+			c.reqs = []*reqRec{newReq(nconn, 0, "slowacc", kind)}
+			cc.Sits = append(cc.Sits, c.Sit)
+			cy.clients = append(cy.clients, c) // always last
+		}
+		cy.cfg = cc
+		cfg.Cycles = append(cfg.Cycles, cc)
+		cycles = append(cycles, cy)
 	}
 	k.cfg = cfg
 
@@ -425,20 +536,74 @@ func runCase(r *mon.Run, i int) {
 		}
 	}
 	k.s = s
+
+	nontrivial := false
+	var classes []string
+	completed := 0
+	for _, cy := range cycles {
+		ok, nt, cls := runCycle(k, cy, rnd)
+		if !ok {
+			break
+		}
+		completed++
+		nontrivial = nontrivial || nt
+		classes = append(classes, cls)
+		if cy.n > 0 {
+			r.Event("later_cycles_completed", 1)
+		}
+	}
+	r.Event("cycles_completed", completed)
+	if completed == 0 {
+		return
+	}
+	r.Case(fmt.Sprintf("rmu=%v|cos=%v|cycles=%d|%s", cfg.RMU, cfg.CloseOnShutdown, completed, strings.Join(classes, " ; ")), nontrivial)
+}
+
+// runCycle runs one Serve ... Shutdown round; ok=false means the case cannot go on (violation that
+// leaves the server in an unknown state, harness stall, Shutdown error).
+func runCycle(k *kase, cy *cycle, rnd *rand.Rand) (ok, nontrivial bool, class string) {
+	r, i, s, cfg := k.r, k.idx, k.s, cy.cfg
+	clients := cy.clients
+	payload := map[string]any{"config": k.cfg, "cycle": cy.n}
+	fail := func(why string) { r.Inconclusive(fmt.Sprintf("case %d cycle %d: %s", i, cy.n, why)) }
+	viol := func(key, what string) {
+		if cy.n > 0 {
+			what = fmt.Sprintf("[Serve/Shutdown cycle %d on the same Server] %s", cy.n+1, what)
+		}
+		if cy.n > 0 && key == "done-not-closed" {
+			key = "done-not-closed-later-cycle" // Done() works in the first Serve/Shutdown cycle of a Server, not in a later one
+		}
+		r.Violation(i, key, what, payload)
+	}
+	k.cur.Store(cy)
 	var serveDone []chan struct{}
 	serveErr := make([]error, cfg.Listeners)
 	for l := 0; l < cfg.Listeners; l++ {
-		ln := fasthttputil.NewInmemoryListener()
-		k.lns = append(k.lns, ln)
+		ln := &slowListener{InmemoryListener: fasthttputil.NewInmemoryListener(), cyc: cy}
+		cy.lns = append(cy.lns, ln)
 		d := make(chan struct{})
 		serveDone = append(serveDone, d)
 		go func(l int) { defer close(d); serveErr[l] = s.Serve(ln) }(l)
 	}
-	fail := func(why string) { r.Inconclusive(fmt.Sprintf("case %d: %s", i, why)) }
+	cleanup := func() {
+		for _, c := range clients {
+			for _, q := range c.reqs {
+				q.fbOnce.Do(func() { close(q.fallback) })
+			}
+		}
+		for _, c := range clients {
+			if c.conn != nil {
+				c.conn.Close()
+			}
+		}
+		for _, ln := range cy.lns {
+			ln.Close()
+		}
+	}
 
-	// warm-up: proves every Serve registered its listener; captures the Done channel
-	for _, ln := range k.lns {
-		ok := mon.Watchdog(watchdog, func() {
+	// warm-up: proves every Serve registered its listener; captures this cycle's Done channel
+	for _, ln := range cy.lns {
+		wok := mon.Watchdog(watchdog, func() {
 			c, err := ln.Dial()
 			if err != nil {
 				return
@@ -449,23 +614,29 @@ func runCase(r *mon.Run, i int) {
 			resp.Read(br)
 			c.Close()
 		})
-		if !ok {
+		if !wok {
 			fail("warm-up stalled")
+			cleanup()
 			return
 		}
 	}
-	k.doneMu.Lock()
-	doneCh := k.doneCh
-	k.doneMu.Unlock()
+	cy.doneMu.Lock()
+	doneCh := cy.doneCh
+	cy.doneMu.Unlock()
 	if doneCh == nil {
 		fail("no Done channel captured")
-		for _, ln := range k.lns {
-			ln.Close()
-		}
+		cleanup()
 		return
 	}
+	if cy.n > 0 {
+		select {
+		case <-doneCh:
+			viol("done-closed-before-shutdown", "the Done() channel handed to a handler of a new Serve cycle is already closed although Shutdown has not been called in this cycle")
+		default:
+		}
+	}
 	// the counters start after the warm-up connections
-	for _, c := range k.counts {
+	for _, c := range cy.counts {
 		c.Store(0)
 	}
 
@@ -474,10 +645,11 @@ func runCase(r *mon.Run, i int) {
 		call, done time.Time
 	}
 	shutCh := make(chan shutRes, 1)
-	var inflightAtCall, inflightAtReturn atomic.Int32
+	var inflightAtCall, inflightAtReturn, pendingAtCall, pendingAtReturn atomic.Int32
 	go func() {
-		<-k.trigCh
+		<-cy.trigCh
 		inflightAtCall.Store(k.inflight.Load())
+		pendingAtCall.Store(cy.pending.Load())
 		res := shutRes{call: time.Now()}
 		if cfg.WithContext {
 			ctx, cancel := context.WithTimeout(context.Background(), 10*time.Minute)
@@ -486,24 +658,42 @@ func runCase(r *mon.Run, i int) {
 		} else {
 			res.err = s.Shutdown()
 		}
+		if res.err == nil {
+			cy.shutReturned.Store(true)
+		}
+		pendingAtReturn.Store(cy.pending.Load())
 		inflightAtReturn.Store(k.inflight.Load())
 		res.done = time.Now()
 		shutCh <- res
 	}()
 
-	for _, ci := range rnd.Perm(len(clients)) {
-		go clients[ci].run()
+	normal := clients
+	var delayed *client
+	if cfg.SlowAccept {
+		normal, delayed = clients[:len(clients)-1], clients[len(clients)-1]
+	}
+	for _, ci := range rnd.Perm(len(normal)) {
+		go normal[ci].run()
 		if rnd.Intn(3) == 0 {
 			runtime.Gosched()
 		}
 	}
 	stalled := ""
-	for _, c := range clients {
+	for _, c := range normal {
 		if !waitCh(c.ready, watchdog) {
 			stalled = fmt.Sprintf("client %d (%s) not ready", c.Idx, c.Sit)
 		}
 	}
-	k.fire()
+	if delayed != nil {
+		// the connection of this client is obtained by Accept, Shutdown is called, and only
+		// AcceptDelayMs later Serve gets to see (and count) the connection
+		cy.lns[delayed.Ln].armed.Store(int64(time.Duration(cfg.AcceptDelayMs) * time.Millisecond))
+		go delayed.run()
+		if !waitCh(delayed.ready, watchdog) {
+			stalled = "client behind the delayed Accept not ready"
+		}
+	}
+	cy.fire()
 
 	doneClosed := false
 	if cfg.WaitDone || stalled != "" {
@@ -539,20 +729,6 @@ func runCase(r *mon.Run, i int) {
 	}
 	tRelease := time.Now()
 
-	cleanup := func() {
-		for _, q := range k.reqs {
-			q.fbOnce.Do(func() { close(q.fallback) })
-		}
-		for _, c := range clients {
-			if c.conn != nil {
-				c.conn.Close()
-			}
-		}
-		for _, ln := range k.lns {
-			ln.Close()
-		}
-	}
-
 	var res shutRes
 	returned := false
 	select {
@@ -567,7 +743,7 @@ func runCase(r *mon.Run, i int) {
 		// Done() must be closed by now if Shutdown is in progress; done-waiting handlers hold Shutdown otherwise
 		if !waitCh(doneCh, doneWait()) {
 			doneBroken.Add(1)
-			r.Violation(i, "done-not-closed", "Shutdown was called long ago (>= 4 s, up to 19 s) and has not returned, yet the Done() channel of the server is still open", cfg)
+			viol("done-not-closed", "Shutdown was called long ago (>= 4 s, up to 19 s) and has not returned, yet the Done() channel handed to this cycle's handlers is still open")
 			cleanup()
 			return
 		}
@@ -581,7 +757,7 @@ func runCase(r *mon.Run, i int) {
 		if stalled != "" {
 			fail("Shutdown did not return, but the harness itself stalled: " + stalled)
 		} else {
-			r.Violation(i, "shutdown-hang", fmt.Sprintf("Shutdown has not returned %v after the last gate was released and every client went quiet (open=%d)\n%s", slackHang, s.GetOpenConnectionsCount(), mon.Stacks()), cfg)
+			viol("shutdown-hang", fmt.Sprintf("Shutdown has not returned %v after the last gate was released and every client went quiet (open=%d)\n%s", slackHang, s.GetOpenConnectionsCount(), mon.Stacks()))
 		}
 		cleanup()
 		return
@@ -601,20 +777,30 @@ func runCase(r *mon.Run, i int) {
 		return
 	}
 	r.Event("shutdown_returned_nil", 1)
-	viol := func(key, what string) {
-		r.Violation(i, key, what, map[string]any{"config": cfg})
-	}
+	ok = true
 
 	// M1: no handler between start and end
 	if n := inflightAtReturn.Load(); n != 0 {
 		viol("handler-running-after-shutdown", fmt.Sprintf("%d request handler(s) were between start and end when Shutdown returned nil", n))
+		ok = false
 	}
 	r.Event("handlers_inflight_at_shutdown_call", int(inflightAtCall.Load()))
+	// M3a: Serve cannot have returned while the listener's Accept still holds a connection for it
+	if cfg.SlowAccept {
+		r.Event("slow_accept_cycles", 1)
+		if pendingAtCall.Load() > 0 {
+			r.Event("slow_accept_shutdown_called_while_accept_pending", 1)
+		}
+	}
+	if n := pendingAtReturn.Load(); n > 0 {
+		viol("shutdown-returned-while-serve-in-accept", fmt.Sprintf("Shutdown returned nil while Serve was still inside the listener's Accept holding %d accepted connection(s) (the wrapper hands it over %d ms after obtaining it): Serve had not returned, the connection is served after Shutdown", n, cfg.AcceptDelayMs))
+		ok = false
+	}
 	// M2: listeners closed
-	for l, ln := range k.lns {
+	for l, ln := range cy.lns {
 		var derr error
 		ln := ln
-		ok := mon.Watchdog(closeGrace, func() {
+		wok := mon.Watchdog(closeGrace, func() {
 			var c net.Conn
 			c, derr = ln.Dial()
 			if c != nil {
@@ -622,14 +808,16 @@ func runCase(r *mon.Run, i int) {
 			}
 		})
 		r.Event("listeners_probed", 1)
-		if !ok || derr == nil {
-			viol("listener-open-after-shutdown", fmt.Sprintf("listener %d still takes connections after Shutdown returned nil (dial blocked=%v err=%v)", l, !ok, derr))
+		if !wok || derr == nil {
+			viol("listener-open-after-shutdown", fmt.Sprintf("listener %d still takes connections after Shutdown returned nil (dial blocked=%v err=%v)", l, !wok, derr))
+			ok = false
 		}
 	}
 	// M3: Serve returned
 	for l, d := range serveDone {
 		if !waitCh(d, closeGrace) {
 			viol("serve-not-returned", fmt.Sprintf("Serve on listener %d has not returned %v after Shutdown returned nil", l, closeGrace))
+			ok = false
 		} else {
 			r.Event("serve_returned", 1)
 			if serveErr[l] != nil {
@@ -637,7 +825,7 @@ func runCase(r *mon.Run, i int) {
 			}
 		}
 	}
-	// M4/M6: connections closed by the server
+	// M4: connections closed by the server
 	nidle := 0
 	for _, c := range clients {
 		if c.dialErr != nil {
@@ -663,6 +851,7 @@ func runCase(r *mon.Run, i int) {
 			}
 			continue
 		}
+		ok = false
 		if allAnswered {
 			viol("idle-conn-not-closed", fmt.Sprintf("client %d (%s): every request on the keep-alive connection was answered, Shutdown returned nil, but the server has not closed the connection %v later", c.Idx, c.Sit, closeGrace))
 		} else {
@@ -670,6 +859,19 @@ func runCase(r *mon.Run, i int) {
 		}
 	}
 	r.Event("idle_keepalive_conns_closed", nidle)
+	// M1b: a handler that started after Shutdown had returned nil (stamped by the handler itself)
+	for _, c := range clients {
+		all := append([]*reqRec(nil), c.reqs...)
+		if c.late != nil {
+			all = append(all, c.late)
+		}
+		for _, q := range all {
+			if q.afterShut.Load() {
+				viol("handler-started-after-shutdown", fmt.Sprintf("client %d (%s): the handler of %s started after Shutdown had returned nil (connection accepted before Shutdown was called)", c.Idx, c.Sit, q.ID))
+				ok = false
+			}
+		}
+	}
 	// M5: responses of started handlers
 	started, matched := 0, 0
 	for _, c := range clients {
@@ -690,7 +892,7 @@ func runCase(r *mon.Run, i int) {
 			if m == nil {
 				if !c.isEOF() {
 					// the client's reader has not drained the connection yet: cannot tell "lost" from "not read yet"
-					r.Inconclusive(fmt.Sprintf("case %d: client %d has no response for %s but its connection is still open", i, c.Idx, q.ID))
+					fail(fmt.Sprintf("client %d has no response for %s but its connection is still open", c.Idx, q.ID))
 					continue
 				}
 				key := "response-lost-" + q.Role
@@ -704,7 +906,7 @@ func runCase(r *mon.Run, i int) {
 					// stop check after the first response that dropped it: the connection was cut
 					key = "response-lost-pipelined-conn-cut"
 				}
-				viol(key, fmt.Sprintf("client %d (%s): handler of request %s (%s) started and ended, Shutdown returned nil, but the client did not receive a complete response for it; client read %d bytes: %s (close_on_shutdown=%v rmu=%v)", c.Idx, c.Sit, q.ID, q.Role, len(buf), mon.Short(buf, 160), cfg.CloseOnShutdown, cfg.RMU))
+				viol(key, fmt.Sprintf("client %d (%s): handler of request %s (%s) started and ended, Shutdown returned nil, but the client did not receive a complete response for it; client read %d bytes: %s (close_on_shutdown=%v rmu=%v)", c.Idx, c.Sit, q.ID, q.Role, len(buf), mon.Short(buf, 160), k.cfg.CloseOnShutdown, k.cfg.RMU))
 				continue
 			}
 			if string(m.Body) != q.wantBody() || m.Status != 200 {
@@ -712,28 +914,32 @@ func runCase(r *mon.Run, i int) {
 				continue
 			}
 			matched++
+			if q.Role == "slowacc" {
+				r.Event("slow_accept_requests_answered", 1)
+			}
 		}
 	}
 	r.Event("handlers_started", started)
 	r.Event("responses_matched", matched)
 	// M6: Done()
-	for _, q := range k.reqs {
-		if !q.started.Load() {
-			continue
-		}
-		switch {
-		case q.Kind == "donewait" && q.viaFB.Load(), q.doneMiss.Load():
-			viol("done-not-closed", fmt.Sprintf("handler of %s (%s) ran while shutdown was in progress and found Done() still open", q.ID, q.Role))
-		case q.doneSeen.Load():
-			r.Event("done_observed_closed_in_handler", 1)
+	for _, c := range clients {
+		for _, q := range c.reqs {
+			if !q.started.Load() {
+				continue
+			}
+			switch {
+			case q.Kind == "donewait" && q.viaFB.Load(), q.doneMiss.Load():
+				viol("done-not-closed", fmt.Sprintf("handler of %s (%s) ran while shutdown was in progress and found Done() still open", q.ID, q.Role))
+			case q.doneSeen.Load():
+				r.Event("done_observed_closed_in_handler", 1)
+				if cy.n > 0 {
+					r.Event("later_cycle_done_observed_closed_in_handler", 1)
+				}
+			}
 		}
 	}
 	if doneClosed {
 		r.Event("done_observed_closed_by_harness", 1)
-	}
-	if k.counts["hstart"].Load() > int32(started) {
-		// (cannot happen: every handler call is for a registered request)
-		r.Event("handler_calls_unaccounted", 1)
 	}
 	lateHandled := 0
 	for _, c := range clients {
@@ -759,8 +965,8 @@ func runCase(r *mon.Run, i int) {
 			uniq = append(uniq, sname)
 		}
 	}
-	nb := "1"
-	switch {
+	nb := "0-1"
+	switch nconn := len(clients); {
 	case nconn > 8:
 		nb = "9-16"
 	case nconn > 3:
@@ -768,27 +974,29 @@ func runCase(r *mon.Run, i int) {
 	case nconn > 1:
 		nb = "2-3"
 	}
-	nontrivial := inflightAtCall.Load() > 0 || nidle > 0
-	r.Case(fmt.Sprintf("ln=%d|rmu=%v|cos=%v|ctx=%v|trig=%s|wd=%v|n=%s|%s|inflight=%v", cfg.Listeners, cfg.RMU, cfg.CloseOnShutdown, cfg.WithContext, cfg.Trigger, cfg.WaitDone, nb, strings.Join(uniq, "+"), inflightAtCall.Load() > 0), nontrivial)
-	if nontrivial && r.WantSample() {
-		r.Sample(map[string]any{"config": cfg, "handlers_inflight_at_shutdown_call": inflightAtCall.Load(), "handlers_started": started, "responses_matched": matched,
+	nontrivial = inflightAtCall.Load() > 0 || nidle > 0 || pendingAtCall.Load() > 0
+	class = fmt.Sprintf("ln=%d|ctx=%v|trig=%s|wd=%v|n=%s|%s|inflight=%v", cfg.Listeners, cfg.WithContext, cfg.Trigger, cfg.WaitDone, nb, strings.Join(uniq, "+"), inflightAtCall.Load() > 0)
+	if nontrivial && r.WantSample() && (cy.n > 0 || cfg.SlowAccept || r.EventCount("cycles_completed") > 40) {
+		r.Sample(map[string]any{"config": k.cfg, "cycle": cy.n, "handlers_inflight_at_shutdown_call": inflightAtCall.Load(), "accept_pending_at_shutdown_call": pendingAtCall.Load(), "handlers_started": started, "responses_matched": matched,
 			"idle_conns_closed": nidle, "shutdown_took_ms": res.done.Sub(res.call).Milliseconds(), "after_last_release_ms": res.done.Sub(tRelease).Milliseconds()})
 	}
+	return
 }
 
 func TestC15(t *testing.T) {
 	r := mon.Start(t, "C15")
 	defer r.Finish()
-	r.Rule("case = Server{ReduceMemoryUsage, CloseOnShutdown, IdleTimeout} on 1-2 InmemoryListeners x 1-16 client connections each in a PRNG situation {idle keep-alive, handler parked on a harness gate, pipelined pair (first gated), handler waiting on ctx.Done(), accepted-but-silent (closed or sending a request once shutdown runs), idle keep-alive that sends a new request once shutdown runs} x Shutdown|ShutdownWithContext called at a PRNG moment {all clients settled, k-th StateNew/StateActive/StateIdle, k-th handler start/end} x gates released in PRNG order before/after Done() was seen closed; one process-wide seeded perturber (yield/sleep <=2ms) at srv.shutdown.tick, srv.beforeHandler, srv.afterHandler, srv.beforeWrite, srv.accepted, wp.* (cases run concurrently, so the interleaving itself is not replayable); distinct = (config, trigger, connection-count bucket, set of situations, handler in flight at the call); non-trivial = a handler was in flight when Shutdown was called or an idle keep-alive connection existed")
+	r.Rule("case = one Server{ReduceMemoryUsage, CloseOnShutdown, IdleTimeout} going through 1-3 Serve/Shutdown cycles (every later cycle has a handler blocked on ctx.Done() when Shutdown is called); per cycle: 1-2 InmemoryListeners (wrapped: in 1/4 of the cycles Accept obtains the last client's connection, Shutdown is called, and Serve gets the connection only 60-560 ms later) x 1-16 client connections each in a PRNG situation {idle keep-alive, handler parked on a harness gate, pipelined pair (first gated), handler waiting on ctx.Done(), accepted-but-silent (closed or sending a request once shutdown runs), idle keep-alive that sends a new request once shutdown runs} x Shutdown|ShutdownWithContext called at a PRNG moment {all clients settled, k-th StateNew/StateActive/StateIdle, k-th handler start/end} x gates released in PRNG order before/after Done() was seen closed; one process-wide seeded perturber (yield/sleep <=2ms) at srv.shutdown.tick, srv.beforeHandler, srv.afterHandler, srv.beforeWrite, srv.accepted, wp.* (cases run concurrently, so the interleaving itself is not replayable); distinct = (config, trigger, connection-count bucket, set of situations, handler in flight at the call); non-trivial = a handler was in flight when Shutdown was called, an idle keep-alive connection existed, or an accepted connection was still inside Accept")
 	r.Assume("only Shutdown calls that returned nil are judged; handlers never hijack and never use TimeoutHandler/TimeoutError")
 	r.Assume("'idle keep-alive connection' = a connection on which every request sent has been answered completely; connections that never sent a byte are not required to be closed by the server (fasthttp treats them as active / closes them after 5 s) - the harness closes them or sends a request as part of the release phase")
 	r.Assume("'response written' is observed at the client: a complete response (independent h1 framing) carrying the request's unique id and exact body must have been read from the connection")
 	r.Assume("bounded liveness: Shutdown returning later than 4.1 s (100 ms ticker + 4 s slack) after the last gate release is inconclusive, later than 41 s (or never) with all gates released is shutdown-hang; server-side close of connections and the return of Serve are awaited for 10 s after Shutdown returned")
+	r.Assume("'Serve has returned' is judged strictly only through the listener wrapper (Shutdown returned nil while Accept still held a connection for Serve) and through handlers that stamp their own start after Shutdown's return; otherwise Serve is given 10 s to return")
 	r.Assume("the explored interleavings are those produced by the perturber and the scheduler on this machine, not all interleavings")
 	p := sched.New(r.Seed()*7919 + 15)
 	p.Intensity = 40
 	p.MaxSleep = 2 * time.Millisecond
-	p.Only = map[string]bool{"srv.shutdown.tick": true, "srv.beforeHandler": true, "srv.afterHandler": true, "srv.beforeWrite": true, "srv.accepted": true,
+	p.Only = map[string]bool{"srv.shutdown.tick": true, "srv.beforeHandler": true, "srv.afterHandler": true, "srv.beforeWrite": true, "srv.accepted": true, "srv.firstByte": true,
 		"wp.serve.beforesend": true, "wp.release.enter": true, "wp.stop.enter": true}
 	p.Install()
 	defer sched.Uninstall()
@@ -812,5 +1020,9 @@ func TestC15(t *testing.T) {
 		r.Require("hook:srv.shutdown.tick", n)
 		r.Require("hook:srv.beforeWrite", n)
 		r.Require("listeners_probed", n*9/10)
+		r.Require("slow_accept_shutdown_called_while_accept_pending", n/10)
+		r.Require("slow_accept_requests_answered", n/20)
+		r.Require("later_cycles_completed", n/5)
+		r.Require("later_cycle_done_observed_closed_in_handler", n/5)
 	}
 }
